@@ -544,8 +544,52 @@ func TestVerifC16(t *testing.T) {
 		R.AddKey("and")
 		R.AddKey("or")
 		R.Transitions = R.Executions * 2
+		// regex sweep: every pattern of <= L symbols over a regex alphabet (anchors, alternation, escapes, classes
+		// included) that compiles, as =~ and !~ on one label, against every value of <= 3 symbols and the absent label.
+		// "Fully anchored" means the reference ^(?:p)$ whatever anchors p itself carries (^1|2$ is not anchored).
+		ralpha := []string{"1", "2", "|", "^", "$", ".", "*", "+", "?", "(", ")", "\\", "[", "]"}
+		L := 4
+		if rep.Thorough() {
+			L = 5
+		}
+		var rvals []string
+		words([]string{"1", "2", "\n", "$", "a"}, 3, func(v string) bool { rvals = append(rvals, v); return true })
+		npat := 0
+		words(ralpha, L, func(p string) bool {
+			ref, err := regexp.Compile("^(?:" + p + ")$")
+			mr, err1 := labels.NewMatcher(labels.MatchRegexp, "a", p)
+			mn, err2 := labels.NewMatcher(labels.MatchNotRegexp, "a", p)
+			if (err == nil) != (err1 == nil) || (err == nil) != (err2 == nil) {
+				if R.NViolations < 20 {
+					R.Violate("regex-validity-differs", fmt.Sprintf("pattern %q: ^(?:p)$ compiles: %v, NewMatcher errors: %v / %v", p, err == nil, err1, err2), map[string]any{"part": "semantics"})
+				}
+				return true
+			}
+			if err != nil {
+				return true
+			}
+			npat++
+			for i := -1; i < len(rvals); i++ {
+				lset, v := model.LabelSet{"b": "1"}, ""
+				if i >= 0 {
+					v = rvals[i]
+					lset["a"] = model.LabelValue(v)
+				}
+				R.Executions++
+				want := ref.MatchString(v)
+				if got := (labels.Matchers{mr}).Matches(lset); got != want && R.NViolations < 20 {
+					R.Violate("match-semantics-differ", fmt.Sprintf("a=~%q on value %q (index %d, -1 = label absent): Matches=%v, the fully anchored expression gives %v", p, v, i, got, want), map[string]any{"part": "semantics"})
+				}
+				if got := (labels.Matchers{mn}).Matches(lset); got != !want && R.NViolations < 20 {
+					R.Violate("match-semantics-differ", fmt.Sprintf("a!~%q on value %q (index %d, -1 = label absent): Matches=%v, the fully anchored expression gives %v", p, v, i, got, !want), map[string]any{"part": "semantics"})
+				}
+			}
+			return true
+		})
+		R.AddKey(fmt.Sprint("regex-sweep ", npat))
+		R.Transitions += R.Executions
 		R.Exhaustive = true
-		R.Bound = fmt.Sprintf("all pairs of %d matchers (2 names x %d patterns x 4 types) x %d label sets, conjunction and matcher-set disjunction", len(ms), len(pats), len(sets))
+		R.Bound = fmt.Sprintf("all pairs of %d matchers (2 names x %d patterns x 4 types) x %d label sets, conjunction and matcher-set disjunction; regex sweep: all %d compiling patterns of <= %d symbols over %d regex symbols x {=~, !~} x %d values and the absent label", len(ms), len(pats), len(sets), npat, L, len(ralpha), len(rvals))
 		R.Sample(map[string]any{"patterns": pats, "values": vals})
 		R.Write()
 	}
